@@ -184,7 +184,13 @@ func (w *World) monRedirect(rec *CheckRec) {
 		w.probe("redirect-presented:attacker-chosen")
 	}
 	// -- the presented session is destroyed (sequential contexts only; no fault in this check)
-	if rec.SID != "" && !rec.Overlapped && len(rec.Faults) == 0 && rec.After != nil && rec.After.Found {
+	storeFaulted := false
+	for _, fl := range rec.Faults {
+		if strings.HasPrefix(fl, "store.") {
+			storeFaulted = true
+		}
+	}
+	if rec.SID != "" && !rec.Overlapped && !storeFaulted && !rec.Perturbed && rec.After != nil && rec.After.Found {
 		w.violate("C05", "presented-session-survives-redirect", fmt.Sprintf("check #%d: store still holds the presented session after the login redirect", rec.N))
 	}
 	// -- the Location, parsed by the strict provider-side parser (dry run: no code is issued)
@@ -253,7 +259,7 @@ func problemKinds(ps []string) string {
 
 func (w *World) monTokenReqs(rec *CheckRec) {
 	for _, tr := range rec.TokenReqs {
-		if tr.Chain >= 0 && tr.Status == 200 && (tr.Fault == "reset-after" || tr.Fault == "truncated" || tr.Fault == "garbage") {
+		if tr.Chain >= 0 && tr.Status == 200 && (tr.Fault == "reset-after" || tr.Fault == "truncated" || tr.Fault == "garbage" || tr.Forged == "raw-body") {
 			// the provider processed the grant (and possibly rotated the refresh token) but its answer was
 			// lost: the service legitimately still holds the predecessor
 			w.lostReply[tr.Chain] = true
@@ -533,11 +539,11 @@ func (w *World) monOK(rec *CheckRec) {
 	// (b) a successful refresh exchange during this very check
 	refreshed := false
 	for _, tr := range rec.TokenReqs {
-		if tr.Grant == "refresh_token" && tr.Status == 200 && tr.Done && tr.Fault == "" {
+		if tr.Grant == "refresh_token" && tr.Status == 200 && tr.Done && tr.Fault == "" && tr.Forged == "" {
 			refreshed = true
 		}
-		if tr.Status != 200 || tr.Fault != "" {
-			refreshed = false // the last word of the provider in this check was a failure
+		if tr.Status != 200 || tr.Fault != "" || tr.Forged != "" {
+			refreshed = false // the last word of the provider in this check was a failure (or granted nothing valid)
 		}
 	}
 	// (a) stored, provider-issued, unexpired tokens
@@ -737,6 +743,18 @@ func (w *World) monLeak(rec *CheckRec) {
 	if o := rec.Resp.GetOkResponse(); o != nil {
 		for _, h := range o.GetResponseHeadersToAdd() {
 			hay.WriteString(h.GetHeader().GetKey() + ": " + h.GetHeader().GetValue() + "\n")
+		}
+		// upstream headers: nothing but the ID token and the access token may be added
+		var up strings.Builder
+		for _, h := range o.GetHeaders() {
+			up.WriteString(h.GetHeader().GetKey() + ": " + h.GetHeader().GetValue() + "\n")
+		}
+		ups := up.String()
+		for sec, kind := range w.secrets {
+			if kind != "id-token" && kind != "access-token" && len(sec) >= 6 && strings.Contains(ups, sec) {
+				w.violate("C14", "ok-adds-a-credential-upstream:"+kind, fmt.Sprintf("check #%d: the %s is added to the upstream request", rec.N, kind))
+				break
+			}
 		}
 	}
 	raw := hay.String()
